@@ -29,7 +29,8 @@ static Case gen_case ()
 	int merge = *rc::gen::element (0, 0, 1, 2, 3, 4) ;	// 0 random, 1 round robin, 2 sequential, 3 bursts, 4 all merges (two short scripts)
 	if (merge == 4) ns = 2 ;
 	c.seti ("ns", ns) ; c.seti ("merge", merge) ; c.seti ("mseed", (long long) *seedGen ()) ;
-	bool same = *rangeOf<int> (0, 2) == 0 ;	// every script on the same codec: shared per-codec state would show here
+	int samek = *rangeOf<int> (0, 5) ; bool same = samek <= 1 ;	// every script on the same codec: shared per-codec state would show here
+	bool family = samek == 2 ;	// ... or on the variants of one codec family in one container (NMS 16/24/32, G.721/G.723, ALAC, DWVW, float/double ...): state shared between variants
 	// the shared codec is drawn from the encodings that keep per-stream state in a private block (that is where state shared between
 	// handles, or left uninitialised, would live), each equally likely
 	static std::vector<const FmtEntry *> stateful ;
@@ -38,6 +39,11 @@ static Case gen_case ()
 	for (int i = 0 ; i < ns ; i++)
 	{	// one script in three works on a real file (descriptors of its own, SD2 included), the others on virtual I/O
 		int path = *rangeOf<int> (0, 2) == 0 ; const FmtEntry *e = same ? shared : pickEntry (path ? all_entries () : all_vio_entries ()) ; std::string k = std::to_string (i) ;
+		if (family)
+		{	auto fam = [] (const FmtEntry *x) { std::string n = codec_of (x->format)->name ; std::string o ; for (char ch : n) if (ch < '0' || ch > '9') o += ch ; return o + "@" + std::to_string (x->format & SF_FORMAT_TYPEMASK) ; } ;
+			std::vector<const FmtEntry *> grp ; for (auto *x : stateful) if (fam (x) == fam (shared)) grp.push_back (x) ;
+			e = *rc::gen::elementOf (grp) ;
+		}
 		if ((e->format & SF_FORMAT_TYPEMASK) == SF_FORMAT_SD2) path = 1 ;
 		c.seti ("p" + k, path) ;
 		c.seti ("f" + k, e->format) ; c.seti ("c" + k, pickChannels (e, 30)) ;
@@ -45,7 +51,7 @@ static Case gen_case ()
 		c.seti ("k" + k, merge == 4 ? *rangeOf<int> (1, 2) : *rangeOf<int> (1, 10)) ;
 		c.seti ("s" + k, (long long) *seedGen ()) ;
 	}
-	c.seti ("same", same) ;
+	c.seti ("same", same ? 1 : family ? 2 : 0) ;
 	return c ;
 }
 
@@ -234,7 +240,7 @@ static Result run_case (const Case &c)
 	else merges.push_back (make_merge (merge, (uint64_t) c.geti ("mseed"), steps)) ;
 	int busy = 0 ; for (int d : dataops) if (d > 0) busy ++ ;
 	r.nontrivial = busy >= 2 ;
-	r.classes = { "merge:" + std::to_string (merge), "scripts:" + std::to_string (ns), std::string ("same_codec:") + (c.geti ("same") ? "1" : "0"), "merges_run:" + std::string (merges.size () > 1 ? ">1" : "1") } ;
+	r.classes = { "merge:" + std::to_string (merge), "scripts:" + std::to_string (ns), std::string ("same_codec:") + (c.geti ("same") == 1 ? "1" : c.geti ("same") == 2 ? "family" : "0"), "merges_run:" + std::string (merges.size () > 1 ? ">1" : "1") } ;
 	{ int nr = 0, nw = 0, nb = 0 ; for (auto &sp : specs) (sp.mode == 0 ? nr : sp.mode == 1 ? nw : nb) ++ ; r.classes.push_back (std::string ("modes:") + (nr ? "r" : "") + (nw ? "w" : "") + (nb ? "x" : "")) ; }
 	for (auto &order : merges)
 	{	std::string out = in_child ([&] ()
